@@ -185,6 +185,9 @@ def run(res, tier, rng, table_diffs=()):
                 "functie f() { 1.5 } 1.0 + f() + f() * f()", "functie f() { \"x\" } print(f(), f(), f()); f()"]
     for d in directed:
         cases.append(("directed", d))
+    from .. import gen2
+    for d in gen2.deep_tower_programs():
+        cases.append(("deep-tower", d))
     cases += root_matrix()
     # THE SAME CONSTRUCTOR EVALUATED AGAIN after its first value died and a collection ran: an implementation that remembers
     # "the" empty list / empty text / a small constant object somewhere the collector does not see hands out a released object
